@@ -1,4 +1,4 @@
-import PdshVerif.Dsh.Fan
+import PdshVerif.Dsh.FanG
 import Driver.Util
 
 /-! engine `fan`: trace acceptor for the projected traces of the `sched` harness.
@@ -8,12 +8,18 @@ import Driver.Util
                                      parked-unsignalled threads, threads blocked on something the
                                      model does not know (thd_mutex, poll, ...)   -> ok | reject ..
     ev D <lock|wait|wake 0|wake 1|relock|create i|unlock|return>                  -> ok | reject ..
-    ev W<i> <connectBegin|connectEnd|destroyBegin|destroyEnd|lock|signal|unlock>  -> ok | reject ..
+    ev W<i> <connectBegin|connectEnd|destroyBegin|destroyEnd|lock|signal|broadcast|unlock>  -> ok | reject ..
     end <ok|deadlock|other>          ok: the model must be Final; deadlock: nothing enabled
     After a reject every line up to the next `init` answers `skip`.
-    The transition function is `PdshVerif.Dsh.Fan.step`, the one the theorems are about. -/
+    The transition function is `PdshVerif.Dsh.FanG.step`, the one the theorems are about: the LTS with the
+    signalling discipline left open.  An observed call is mapped to a label by what it DOES in the state it is made
+    in: `pthread_mutex_unlock(threadcount_mutex)` by a worker that has not yet made its wake-up call is
+    `unlockFirst`, otherwise `unlock`; `pthread_cond_signal` / `pthread_cond_broadcast` on threadcount_cond (the same
+    transition: the dispatcher is the only waiter, any other waiter is rejected as an unknown event) by a worker
+    that has already unlocked is `signalAfter`, otherwise `signal`.  At most one of the two candidates is enabled in
+    any state (their preconditions are different program counters). -/
 namespace Driver.FanDrv
-open PdshVerif.Dsh.Fan
+open PdshVerif.Dsh.FanG
 
 structure Acc where
   st : Option St := none
@@ -24,29 +30,33 @@ def parseW (t : String) : Option Nat :=
 
 def names (t : String) : List String := if t = "-" then [] else t.splitOn ","
 
-def parseLabel : List String → Option Label
-  | ["D", "lock"] => some (.d .lock)
-  | ["D", "wait"] => some (.d .wait)
-  | ["D", "wake", "0"] => some (.d (.wake false))
-  | ["D", "wake", "1"] => some (.d (.wake true))
-  | ["D", "relock"] => some (.d .relock)
-  | ["D", "create", j] => j.toNat?.map fun j => .d (.create j)
-  | ["D", "unlock"] => some (.d .unlock)
-  | ["D", "return"] => some (.d .ret)
+/-- the labels an observed call can stand for (see the header); [] = not an event of this LTS -/
+def parseLabels : List String → List Label
+  | ["D", "lock"] => [.d .lock]
+  | ["D", "wait"] => [.d .wait]
+  | ["D", "wake", "0"] => [.d (.wake false)]
+  | ["D", "wake", "1"] => [.d (.wake true)]
+  | ["D", "relock"] => [.d .relock]
+  | ["D", "create", j] => (j.toNat?.map fun j => Label.d (.create j)).toList
+  | ["D", "unlock"] => [.d .unlock]
+  | ["D", "return"] => [.d .ret]
   | [t, a] =>
     match parseW t with
-    | none => none
+    | none => []
     | some i =>
       match a with
-      | "connectBegin" => some (.w i .connectBegin)
-      | "connectEnd" => some (.w i .connectEnd)
-      | "destroyBegin" => some (.w i .destroyBegin)
-      | "destroyEnd" => some (.w i .destroyEnd)
-      | "lock" => some (.w i .lock)
-      | "signal" => some (.w i .signal)
-      | "unlock" => some (.w i .unlock)
-      | _ => none
-  | _ => none
+      | "connectBegin" => [.w i .connectBegin]
+      | "connectEnd" => [.w i .connectEnd]
+      | "destroyBegin" => [.w i .destroyBegin]
+      | "destroyEnd" => [.w i .destroyEnd]
+      | "lock" => [.w i .lock]
+      | "signal" | "broadcast" => [.w i .signal, .w i .signalAfter]
+      | "unlock" => [.w i .unlock, .w i .unlockFirst]
+      | _ => []
+  | _ => []
+
+/-- perform the observed call: the first candidate label that is enabled -/
+def stepObserved (s : St) (ls : List Label) : Option St := ls.findSome? (step s)
 
 def enabledNames (s : St) : List String :=
   (if dEnabled s then ["D"] else []) ++
@@ -54,7 +64,8 @@ def enabledNames (s : St) : List String :=
 
 def showW : W → String
   | .idle => "idle" | .started => "started" | .connecting => "connecting" | .connected => "connected"
-  | .tearing => "tearing" | .torn => "torn" | .locked => "locked" | .signaled => "signaled" | .done => "done"
+  | .tearing => "tearing" | .torn => "torn" | .locked => "locked" | .signaled => "signaled"
+  | .released => "released" | .done => "done"
 
 def showDPC : DPC → String
   | .top => "top" | .wait => "wait" | .parked => "parked" | .woken => "woken" | .create => "create"
@@ -103,12 +114,13 @@ def stepLine (a : Acc) (line : String) : Acc × String :=
     | _, _ => (a, "bad-line")
   | "ev" :: rest =>
     if a.dead then (a, "skip") else
-    match a.st, parseLabel rest with
-    | some s, some l =>
-      match step s l with
+    match a.st, parseLabels rest with
+    | _, [] => ({ a with dead := true }, "reject unknown event " ++ " ".intercalate rest)
+    | some s, ls =>
+      match stepObserved s ls with
       | some s' => ({ a with st := some s' }, "ok")
       | none => ({ a with dead := true }, s!"reject not enabled in the model: {" ".intercalate rest} ({showSt s})")
-    | _, _ => ({ a with dead := true }, "reject unknown event " ++ " ".intercalate rest)
+    | none, _ => ({ a with dead := true }, "reject unknown event " ++ " ".intercalate rest)
   | ["end", status] =>
     if a.dead then (a, "skip") else
     match a.st with
